@@ -8,6 +8,7 @@ import itertools
 import json
 
 from .. import sc as M
+from ..core import unlisted_violations  # noqa: E402
 from ..core import TRUSTED_COMMON, build_and_audit, finish, idkey
 from ..sm import run_sm, targeted_search
 
@@ -215,9 +216,9 @@ def small_scope():
 
 
 def conclude(ctx, ok, dis, hist):
-    if (dis or not ok) and not ctx.violations:
+    if (dis or not ok) and not unlisted_violations(ctx):
         targeted_search(ctx, M, pred, dis, hist, n=ctx.n(1200, 15000), derive=derive)
-        if not ctx.violations:
+        if not unlisted_violations(ctx):
             ctx.violation("model-tie", "unproven", {"broken": ctx.broken, "example": ctx.extra.get("disagreements", [])[:1]},
                           detail="; ".join(ctx.broken)[:500], kind="unproven", broken=ctx.broken)
 
